@@ -28,6 +28,7 @@ import (
 	"os"
 	"os/exec"
 	"path/filepath"
+	"sort"
 	"strconv"
 	"strings"
 	"sync"
@@ -144,8 +145,18 @@ func snapWorker(args []string) error {
 	quietLogs()
 	nw := newVnet()
 	recovering := false
-	if _, err := os.Stat(filepath.Join(*dir, "raft", "peers.json")); err == nil {
+	var peers []string
+	if b, err := os.ReadFile(filepath.Join(*dir, "raft", "peers.json")); err == nil {
 		recovering = true
+		var pf []struct {
+			ID       string `json:"id"`
+			NonVoter bool   `json:"non_voter"`
+		}
+		json.Unmarshal(b, &pf)
+		for _, e := range pf {
+			peers = append(peers, fmt.Sprintf("%s:%v", e.ID, !e.NonVoter))
+		}
+		sort.Strings(peers)
 	}
 	n, err := startNode(nw, vNodeOpts{ID: "n1", Dir: *dir, Addr: *addr, NoHTTP: true})
 	if err != nil {
@@ -184,7 +195,18 @@ func snapWorker(args []string) error {
 	st := snapProject(s, proto.ConsistencyLevel_STRONG)
 	snaps, _ := s.Stats()
 	_ = snaps
-	al.line(map[string]any{"ev": "open", "pages": st.Pages, "rows": st.Rows, "sum": st.Sum, "fast": fast, "recover": recovering, "staged": st.Staged, "err": st.Err})
+	var nodes []string
+	if ns, err := s.Nodes(); err == nil {
+		for _, e := range ns {
+			nodes = append(nodes, fmt.Sprintf("%s:%v", e.ID, e.Suffrage == proto.Suffrage_VOTER))
+		}
+		sort.Strings(nodes)
+	}
+	if peers == nil {
+		peers = []string{}
+	}
+	al.line(map[string]any{"ev": "open", "pages": st.Pages, "rows": st.Rows, "sum": st.Sum, "fast": fast, "recover": recovering, "staged": st.Staged, "err": st.Err,
+		"nodes": nodes, "peers": peers})
 
 	opn := *opBase
 	var runOps func(ops []string) (ended bool)
@@ -406,7 +428,9 @@ func snapReplay(args []string) error {
 			for pi, ph := range c.Phases {
 				os.Remove(evf)
 				if ph.Recover {
-					pj := fmt.Sprintf(`[{"id":"n1","address":"%s","non_voter":false}]`, addr)
+					// the node itself as voter plus a node that does not exist as non-voter: the recovered
+					// configuration must be exactly this
+					pj := fmt.Sprintf(`[{"id":"n1","address":"%s","non_voter":false},{"id":"ghost%d","address":"127.0.0.1:9","non_voter":true}]`, addr, pi)
 					os.WriteFile(filepath.Join(ndir, "raft", "peers.json"), []byte(pj), 0644)
 				}
 				if ph.RmFP {
